@@ -46,6 +46,9 @@ def r1(ctx):
     rv = ret_values(b)
     e = {}
     ok = len(rv) == 1 and match(core(rv[0][0]), Call('Option::map', Call('Iterator::max_by_key', Cap('src'), Cap('key')), Cap('proj')), e)
+    if not ok and not list(b.calls(r'Iterator::max_by_key$|Iterator::max_by$|Iterator::max$|Iterator::min_by_key$')) and cfg.loops(b):
+        # a hand-written selection loop: the rule has no normal form for an arg-max scan
+        raise AnchorMissing('max_byte_pair: selection is not an iterator max_by_key chain (hand-written scan)')
     ctx.require(ok, b, 'selection', 'max_byte_pair = (..).max_by_key(freq).map(pair)', 'max_byte_pair = %s' % [show_in(b, v) for v, _ in rv])
     if not ok:
         return
@@ -158,10 +161,18 @@ def r4(ctx):
     ctx.require(has(sent, Call('count_words_whitespace', ANY, ANY)) or has(init_value(w, sent), Call('count_words_whitespace', ANY, ANY)), w, 'sent-counts',
                 'the value sent is the word count of the pulled line', 'sent: %s' % show_in(w, sent))
     # reducer: fold closure adds counts
-    folds = [t for t in b.calls(r'::fold$') if has(sym(b, t.args[0]), Pred(lambda u: isinstance(u, tuple) and u and u[0] == 'call' and 'Receiver' in u[1]))]
-    ok = len(folds) == 1
-    if ok:
-        fc = closure_of(ctx, sym(b, folds[0].args[2]))
+    # reducer (a fold closure over the receiver, or a loop over it in train_bpe itself): per key, counts are only added
+    from rules.common import closures_in
+    wk = {w.path} | {x.path for x in closures_in(ctx, w)}
+    cands = [x for x in [b] + closures_in(ctx, b) if x.path not in wk]
+    ok = False
+    n_ent = 0
+    for fc in cands:
+        ent = [t for t in fc.calls(r'Entry.*::or_insert$|Entry.*::or_default$') if
+               'String' in fc.local_ty(t.args[0].place.local if t.args[0].place is not None else 0)]
+        if not ent:
+            continue
+        n_ent += len(ent)
         adds = [t for t in fc.calls(r'AddAssign>::add_assign$')]
         stores = []
         zz = symbolizer(fc)
@@ -171,8 +182,10 @@ def r4(ctx):
                 tgt = nosite(core(sym(fc, s.lhs)))
                 if val[0] == 'bin' and val[1] == 'Add' and tgt in (nosite(val[2]), nosite(val[3])):
                     stores.append(s)
-        ent = [t for t in fc.calls(r'Entry.*::or_insert$|Entry.*::or_default$')]
         ok = (bool(adds) or bool(stores)) and len(ent) == 1 and match(core(sym(fc, ent[0].args[1])) if len(ent[0].args) > 1 else ('const', '0', 0), Const(0))
+    if n_ent == 0:
+        raise AnchorMissing('the reducer of the word counts (entry(word).or_insert(0) += count)')
+    ok = ok and n_ent == 1
     ctx.require(ok, b, 'reducer-adds', 'the reducer accumulates `*acc.entry(word).or_insert(0) += count`', None)
     # lines are pulled in the same statement as the lock (no line taken outside the mutex)
     ctx.require(has(sym(w, pull.args[0]), Call('Mutex::lock')), w, 'pull-under-lock', 'lines are pulled under the mutex', None)
